@@ -23,9 +23,11 @@ MANIFEST = {
             'retry decision invalidates the result, bumps retry_no, delays the task and adds one continue job; SUCCESS iff the '
             'attempt counts as success (fail-on turns it into ERROR); wait-before / wait-after postpone (exactly one job, '
             'nothing started/dispatched meanwhile) and the postponed work happens when the job fires; pause-before pauses '
-            'before any action and resume re-runs the task; ill-typed parameters force-fail the task, no crash unless '
-            '_get_timeout meets an incomparable task-level timeout. The trace-level statements that are FALSE of the code '
-            'are kept as *_full_fails theorems with witnesses replayed on the engine (known findings).',
+            'before any action and resume re-runs the task; ill-typed parameters force-fail the task and never run, no '
+            'undeclared exception in any run; SUCCESS is final for all event orders (stale continue/complete jobs are '
+            'dropped, /repo 831643dc). The trace-level statements that are still FALSE of the code (timer armed under '
+            'pause-before / during a delay, late result of a timed-out attempt) are kept as *_full_fails theorems with '
+            'witnesses replayed on the engine (known findings).',
     'note': 'the engine is driven in-process through monkeypatched seams (single process, transactions atomic); '
             'multi-process sub-transaction races are not exhibited; YAQL/Jinja evaluation of the parameter expressions is '
             'trusted (the model receives evaluated values); trace-level sequencing of attempts is proved only for the '
